@@ -407,7 +407,7 @@ fn check_stab_one<Gr: GraphLike + PartialEq + Send + 'static>(family: &'static s
                         c.count("stab-state:amplitudes-of-different-modulus", 1);
                     }
                 }
-                Tens::Float(v) => {
+                Tens::Float(v) | Tens::FloatN(v, _) => {
                     // the builder only uses multiples of pi/2 and an exact scalar, so this branch is unexpected
                     let sum: f64 = v.iter().map(|a| a.norm_sqr()).sum();
                     c.count("stab-state:float-evaluation", 1);
